@@ -452,7 +452,7 @@ func (g *gen) safeAtom() slip.Object {
 		}
 	case x < 92:
 		g.ctx.Hist("symbol:safe")
-		if !c.pretty && r.Chance(30) {
+		if r.Chance(30) {
 			return slip.Symbol(common.Pick(r, safePipeSymbols))
 		}
 		return slip.Symbol(common.Pick(r, safeSymbols))
@@ -857,6 +857,19 @@ func repairedCases() (out []repairedCase) {
 			}
 		}
 	}
+	// C03-4: symbols that need bars inside lists, vectors, dotted pairs and arrays under *print-pretty* t, any margin;
+	// & in first place and / keep their plain spelling
+	barNames := []string{"a b", "", "(", ")", "a(b", "'", "\"", ";", "#", ",x", "`", "a&b", "&", "&rest", "&key", "/", "/=", "a/b", "1/2", "123", "-5", "A B", "{", "[x]", "!"}
+	for i, name := range barNames {
+		other := barNames[(i+7)%len(barNames)]
+		for _, c := range []cfg{pretty, with(pretty, func(c *cfg) { c.margin = 4 }), with(pretty, func(c *cfg) { c.pcase = "cap"; c.margin = 1 }), with(pretty, func(c *cfg) { c.pcase = "up"; c.base, c.radix = 2, true })} {
+			out = append(out, repairedCase{"C03-4", c, slip.List{slip.Symbol(name), slip.Symbol("c")}})
+			out = append(out, repairedCase{"C03-4", c, slip.List{slip.Symbol("x"), slip.List{slip.Symbol(other), slip.Symbol(name)}, slip.Tail{Value: slip.Symbol(name)}}})
+			out = append(out, repairedCase{"C03-4", c, slip.NewVector(2, slip.TrueSymbol, nil, slip.List{slip.Symbol(name), slip.Symbol(other)}, false)})
+		}
+	}
+	out = append(out, repairedCase{"C03-4", pretty, slip.NewArray([]int{2, 2}, slip.TrueSymbol, nil,
+		slip.List{slip.List{slip.Symbol("a b"), slip.Symbol("")}, slip.List{slip.Symbol("("), slip.Symbol("&rest")}}, false)})
 	return
 }
 
